@@ -1,5 +1,5 @@
 ------------------------------ MODULE MTLoggerMC ------------------------------
-EXTENDS MTLogger
+EXTENDS MTLogger, TLC, Json
 CONSTANT MaxDepth
 Bound == TLCGet("level") <= MaxDepth
 \* behaviour export: every maximal path within the bound (BFS) or every simulated behaviour
